@@ -49,6 +49,9 @@ pub fn instantiate(
     // add all voters
     for voter in msg.voters.iter() {
         let key = deps.api.addr_validate(&voter.addr)?;
+        if VOTERS.has(deps.storage, &key) {
+            return Err(ContractError::DuplicateVoter {});
+        }
         VOTERS.save(deps.storage, &key, &voter.weight)?;
     }
     Ok(Response::default())
